@@ -122,6 +122,8 @@ def poll_leaf(ip, loc, leaf):
     if k in ('sleep', 'notified', 'deleted', 'generic'):
         if k == 'sleep' and getattr(p, 'timers_never_fire', False):
             return PENDING
+        if k == 'notified' and getattr(p, 'signals_never_fire', False):
+            return PENDING
         phase = getattr(p, 'phase', None)
         if phase is None and k == 'deleted':
             return PENDING       # no deletion is part of this scenario
@@ -394,6 +396,14 @@ class MergeM(Model):
         self.a, self.b = a, b
 
 
+class ReceiverM(Model):
+    """mpsc::Receiver of an actor: `items` are the requests already in the mailbox"""
+
+    def __init__(self, items, closed=False):
+        self.items = list(items)
+        self.closed = closed
+
+
 class StreamingM(Model):
     """tonic::Streaming<T>: the client's request stream; `items` are still to come, then it stays open or ends"""
 
@@ -454,6 +464,10 @@ def install_streams(ctx):
         pl = read_loc(args[0].loc)
         return bool_s(z3.BoolVal((pl.discr == 0) == (pc['method'] == 'is_ready')))
 
+    @M.reg('Receiver::recv')
+    def receiver_recv(ip, pc, args, dt):
+        return Leaf('mpsc.recv', args[0])
+
     @M.reg('<StreamExt>::merge')
     def stream_merge(ip, pc, args, dt):
         return MergeM(args[0], args[1])
@@ -478,6 +492,17 @@ def poll_leaf(ip, loc, leaf):          # noqa: F811  (extends the leaf kinds abo
             return PENDING
         write_loc(loc, Leaf('yield', leaf.data, True))
         return ready(UNIT)
+    if leaf.kind == 'mpsc.recv':
+        rx = read_loc(leaf.data.loc) if isinstance(leaf.data, Ref) else leaf.data
+        if rx.items:
+            v = rx.items.pop(0)
+            write_loc(loc, Leaf('mpsc.recv', leaf.data, True))
+            p.effect('dequeue', v)
+            return ready(some(v))
+        if rx.closed:
+            write_loc(loc, Leaf('mpsc.recv', leaf.data, True))
+            return ready(NONE)
+        return PENDING
     if leaf.kind == 'stream.next':
         sref = leaf.data
         st = read_loc(sref.loc) if isinstance(sref, Ref) else sref
